@@ -882,7 +882,9 @@ PROPS = {
                      "Hd.Sni.C20_rejects", "Hd.Sni.C20_port_irrelevant",
                      "Hd.TlsInfo.C20_tls_request_never_told_plain", "Hd.TlsInfo.C20_holder_gets_info",
                      "Hd.TlsInfo.C20_late_request_gets_info", "Hd.TlsInfo.step_spec",
-                     "Hd.TlsInfo.C20_lock_discipline", "Hd.TlsInfo.C20_lock_discipline_tls"],
+                     "Hd.TlsInfo.C20_lock_discipline", "Hd.TlsInfo.C20_lock_discipline_tls",
+                     "Hd.TlsInfo.C20_plain_request_never_told_info", "Hd.TlsInfo.C20_no_info_before_send",
+                     "Hd.TlsInfo.step_quiet"],
         "streams": [
             {"name": "sni", "quick": 6000, "thorough": 300000, "head": 8, "unit": 1,
              "nontrivial": sni_nontrivial, "distribution": sni_dist},
